@@ -31,4 +31,4 @@ def obligations(tier):
            [F['rs'], F['dc'], F['dl']], module=H, func='e_corrupt', timeout=1200, shards=16),
         Ob('E.big', 'E', 'one file of ~1100 / ~2500 chunk references (more than any plausible batching window): the chunk object behind the first / 8th / 1002nd / middle / last-1003rd / last reference damaged (flip, truncate, swap, delete, replay, flip + swap of two others): restore raises or is exact',
            '2 modes x 2 sizes x 6 positions x 6 damages x concurrency {2,5} = 288', ['replicat.repository:Repository.restore', 'replicat.repository:Repository._download_chunk'], module=H, func='e_big_corrupt', timeout=1200, shards=8),
-    ]
+    ] + [o for o in __import__('vt.props.c18', fromlist=['x']).obligations(tier) if o.id == 'K5']
